@@ -1,25 +1,61 @@
-// C05 residue measurement (DESIGN.md §2.4): the real float/double results of the
-// product/determinant family against a 113-bit (__float128) evaluation of the
-// textbook sums, with the property's bound  c * u * sum|products|;  on integer
-// lattices every intermediate is exact and equality is required bit for bit.
+// C05 residue measurement (DESIGN.md §2.4): the real float/double results of EVERY function
+// family of the property against a 113-bit (__float128) evaluation of the textbook sums.
+//
+//   bound rows    |impl - exact| <= c * u * sum|products| (+ one narrowing rounding for the mixed
+//                 S != T instantiations), c fixed per family; on the integer lattice every
+//                 intermediate is exact and equality is required (for the two dividing forms:
+//                 equality with the correctly rounded quotient).
+//   exact rows    outerProduct (one rounding: must equal the rounded exact product), transposes.
+//   bitwise rows  spellings (operator / compound / member / static / aliased) against the operator
+//                 form; the mixed instantiations Vec<S> * Matrix<T> against the same-type
+//                 instantiation at the wider type rounded once per component.
+//
+// Output: RESIDUE-FAIL <function>:<types>:<input class> ... lines, one RESIDUE summary line, one
+// FAMILY line per (function, element types) with its own maximum (fraction of its own bound).
 #include <ImathVec.h>
 #include <ImathMatrix.h>
 #include <ImathMatrixAlgo.h>
 #include <ImathQuat.h>
 #include <cstdio>
 #include <cstdlib>
+#include <cstring>
 #include <cmath>
 #include <algorithm>
+#include <limits>
+#include <map>
 #include <random>
 #include <string>
+#include <type_traits>
 #include <vector>
 using namespace IMATH_NAMESPACE;
 typedef __float128 Q;
 static std::mt19937_64 rng;
-static long evals = 0, lattice = 0, branchHits[16];
-static double worst = 0;
-static int failures = 0;
+static long evals = 0, lattice = 0, failures = 0, printed = 0;
+static long branchHits[2][16], affineHits[2], wzero = 0, wcond = 0;
+static std::vector<char> fm33seen (81, 0), fm44seen (4096, 0);
+static const char* MODE[4] = {"lattice", "scaled", "sparse", "graded"};
 static Q qabs (Q x) { return x < 0 ? -x : x; }
+
+template <class T> struct TN;
+template <> struct TN<float> { static const char* n () { return "float"; } enum { idx = 0 }; };
+template <> struct TN<double> { static const char* n () { return "double"; } enum { idx = 1 }; };
+template <class T> static Q unitRoundoff () { return (Q) std::numeric_limits<T>::epsilon () / 2; }
+template <class T> static Q tiny () { return (Q) std::numeric_limits<T>::denorm_min (); }
+
+struct Fam
+{
+    std::string kind;
+    double      c = 0;
+    long        evals = 0, lattice = 0, fails = 0, skipped = 0;
+    double      worst = 0; // max over non-lattice inputs of err / bound
+};
+static std::map<std::string, Fam> fams;
+static Fam& fam (const std::string& name, const char* kind, double c)
+{
+    Fam& f = fams[name];
+    if (f.kind.empty ()) { f.kind = kind; f.c = c; }
+    return f;
+}
 
 template <class T> static T rnd (int mode)
 {
@@ -32,83 +68,495 @@ template <class T> static T rnd (int mode)
         default: return (T) (U (rng) * std::pow (2.0, (double) ((long) (rng () % 21) - 10)));
     }
 }
-template <class T> static void report (const char* what, T got, Q exact, Q sumabs, int nterms, int mode, const std::string& in)
+template <class T> static T rndNonzero (int mode)
 {
-    ++evals;
-    Q u = (Q) std::numeric_limits<T>::epsilon () / 2;
-    Q err = qabs ((Q) got - exact);
+    for (;;) { T x = rnd<T> (mode); if (x != 0) return x; }
+}
+
+static void failLine (const std::string& name, int mode, Fam& f, const char* why, Q got, Q want, const std::string& in)
+{
+    ++failures; ++f.fails;
+    static std::map<std::string, int> perKey; // a few lines per (row, input class), so that one failing family cannot hide another
+    if (++perKey[name + ":" + MODE[mode]] <= 3 && printed++ < 2000)
+        printf ("RESIDUE-FAIL %s:%s %s got=%.17g want=%.17g in=%s\n", name.c_str (), MODE[mode], why, (double) got, (double) want, in.c_str ());
+}
+
+// bound row:  |got - exact| <= c*unit + extra ; on the lattice got == latticeWant
+template <class F>
+static void check (const std::string& name, double c, Q got, Q exact, Q latticeWant, Q unit, Q extra, int mode, F&& in)
+{
+    Fam& f = fam (name, "bound", c);
+    ++f.evals; ++evals;
     if (mode == 0)
     {
-        ++lattice;
-        if (err != 0) { ++failures; printf ("RESIDUE-FAIL %s lattice-not-exact got=%.17g exact=%.17g in=%s\n", what, (double) got, (double) exact, in.c_str ()); }
+        ++f.lattice; ++lattice;
+        if (!(got == latticeWant)) failLine (name, mode, f, "lattice-not-exact", got, latticeWant, in ());
         return;
     }
-    Q bound = (Q) (nterms + 2) * u * sumabs + (Q) std::numeric_limits<T>::denorm_min ();
-    double ratio = sumabs > 0 ? (double) (err / (u * sumabs)) : 0;
-    if (ratio > worst) worst = ratio;
-    if (err > bound) { ++failures; printf ("RESIDUE-FAIL %s err/(u*sum|terms|)=%.3g > %d got=%.17g exact=%.17g in=%s\n", what, ratio, nterms + 2, (double) got, (double) exact, in.c_str ()); }
+    Q err = qabs (got - exact), bound = (Q) c * unit + extra;
+    double frac = bound > 0 ? (double) (err / bound) : (err > 0 ? 1e30 : 0);
+    if (frac > f.worst) f.worst = frac;
+    if (!(err <= bound))
+    {
+        char why[120];
+        snprintf (why, 120, "err/bound=%.4g err/(u*sum|terms|)=%.4g c=%g", frac, unit > 0 ? (double) (err / unit) : 1e30, c);
+        failLine (name, mode, f, why, got, exact, in ());
+    }
 }
+// exact / bitwise rows
+template <class T, class F> static void same (const std::string& name, const char* kind, T got, T want, int mode, F&& in)
+{
+    Fam& f = fam (name, kind, 0);
+    ++f.evals; ++evals;
+    if (mode == 0) { ++f.lattice; ++lattice; }
+    if (std::memcmp (&got, &want, sizeof (T)) != 0) failLine (name, mode, f, "differs-bitwise", (Q) got, (Q) want, in ());
+}
+
 template <class T, int N> struct Mat;
 template <class T> struct Mat<T, 2> { typedef Matrix22<T> type; typedef Vec2<T> vec; };
 template <class T> struct Mat<T, 3> { typedef Matrix33<T> type; typedef Vec3<T> vec; };
 template <class T> struct Mat<T, 4> { typedef Matrix44<T> type; typedef Vec4<T> vec; };
 
-template <class T, int N> static std::string show (const typename Mat<T, N>::type& m)
+template <class M> static std::string showM (const M& m, int N)
 {
     std::string s;
     char b[40];
-    for (int i = 0; i < N; ++i) for (int j = 0; j < N; ++j) { snprintf (b, 40, "%.9g ", (double) m[i][j]); s += b; }
+    for (int i = 0; i < N; ++i) for (int j = 0; j < N; ++j) { snprintf (b, 40, "%.17g ", (double) m[i][j]); s += b; }
     return s;
 }
-template <class T, int N> static void detQ (const typename Mat<T, N>::type& m, Q& det, Q& sumabs)
+template <class V> static std::string showV (const V& v, int N)
 {
-    // Leibniz sum over permutations, in quad precision
+    std::string s;
+    char b[40];
+    for (int i = 0; i < N; ++i) { snprintf (b, 40, "%.17g ", (double) v[i]); s += b; }
+    return s;
+}
+// Leibniz sum over permutations of an n x n quad array
+static void detQn (int n, const Q a[4][4], Q& det, Q& sumabs)
+{
     int p[4] = {0, 1, 2, 3};
     det = 0; sumabs = 0;
     do {
         int inv = 0;
-        for (int i = 0; i < N; ++i) for (int j = i + 1; j < N; ++j) if (p[i] > p[j]) ++inv;
+        for (int i = 0; i < n; ++i) for (int j = i + 1; j < n; ++j) if (p[i] > p[j]) ++inv;
         Q t = 1;
-        for (int i = 0; i < N; ++i) t *= (Q) m[i][p[i]];
+        for (int i = 0; i < n; ++i) t *= a[i][p[i]];
         det += (inv & 1) ? -t : t;
         sumabs += qabs (t);
-    } while (std::next_permutation (p, p + N));
+    } while (std::next_permutation (p, p + n));
 }
-template <class T, int N> static void runMat (int mode)
+template <class M> static void subDetQ (const M& m, int n, const int* rows, const int* cols, Q& det, Q& sumabs)
+{
+    Q a[4][4];
+    for (int i = 0; i < n; ++i) for (int j = 0; j < n; ++j) a[i][j] = (Q) m[rows[i]][cols[j]];
+    detQn (n, a, det, sumabs);
+}
+
+template <class T, int N> static typename Mat<T, N>::type rndMat (int mode)
+{
+    typename Mat<T, N>::type a;
+    for (int i = 0; i < N; ++i) for (int j = 0; j < N; ++j) a[i][j] = rnd<T> (mode);
+    return a;
+}
+
+// ---- fastMinor: every index tuple (repeated and descending ones included), cycled over the rounds
+template <class T> static void runFastMinor (const Matrix33<T>& a, int mode, long round)
+{
+    std::string nm = std::string ("M33.fastMinor:") + TN<T>::n ();
+    for (int k = 0; k < 9; ++k)
+    {
+        int t = (int) ((round * 9 + k) % 81);
+        int r[2] = {t / 27, (t / 9) % 3}, cc[2] = {(t / 3) % 3, t % 3};
+        fm33seen[t] = 1;
+        Q d, sa;
+        subDetQ (a, 2, r, cc, d, sa);
+        check (nm, 4, (Q) a.fastMinor (r[0], r[1], cc[0], cc[1]), d, d, unitRoundoff<T> () * sa, tiny<T> (), mode, [&] {
+            char b[64]; snprintf (b, 64, "rows %d %d cols %d %d | ", r[0], r[1], cc[0], cc[1]); return b + showM (a, 3); });
+    }
+}
+template <class T> static void runFastMinor (const Matrix44<T>& a, int mode, long round)
+{
+    std::string nm = std::string ("M44.fastMinor:") + TN<T>::n ();
+    for (int k = 0; k < 8; ++k)
+    {
+        int t = (int) ((round * 8 + k) % 4096);
+        int r[3] = {t / 1024, (t / 256) % 4, (t / 64) % 4}, cc[3] = {(t / 16) % 4, (t / 4) % 4, t % 4};
+        fm44seen[t] = 1;
+        Q d, sa;
+        subDetQ (a, 3, r, cc, d, sa);
+        check (nm, 11, (Q) a.fastMinor (r[0], r[1], r[2], cc[0], cc[1], cc[2]), d, d, unitRoundoff<T> () * sa, tiny<T> (), mode, [&] {
+            char b[80]; snprintf (b, 80, "rows %d %d %d cols %d %d %d | ", r[0], r[1], r[2], cc[0], cc[1], cc[2]); return b + showM (a, 4); });
+    }
+}
+template <class T> static void runFastMinor (const Matrix22<T>&, int, long) {}
+template <class T> static void runStatic (const Matrix44<T>& a, const Matrix44<T>& b, const Matrix44<T>& c, int mode)
+{
+    std::string ty = std::string (":") + TN<T>::n ();
+    Matrix44<T> s2 = Matrix44<T>::multiply (a, b), s3, aa = a, bb = b;
+    Matrix44<T>::multiply (a, b, s3);
+    Matrix44<T>::multiply (aa, b, aa);
+    Matrix44<T>::multiply (a, bb, bb);
+    auto in = [&] { return showM (a, 4) + "| " + showM (b, 4); };
+    for (int i = 0; i < 4; ++i) for (int j = 0; j < 4; ++j)
+    {
+        same<T> ("M44.multiplyStatic" + ty, "bitwise", s2[i][j], c[i][j], mode, in);
+        same<T> ("M44.multiplyStatic3" + ty, "bitwise", s3[i][j], c[i][j], mode, in);
+        same<T> ("M44.multiplyStatic3Alias" + ty, "bitwise", aa[i][j], c[i][j], mode, in);
+        same<T> ("M44.multiplyStatic3Alias" + ty, "bitwise", bb[i][j], c[i][j], mode, in);
+    }
+}
+template <class T> static void runStatic (const Matrix33<T>&, const Matrix33<T>&, const Matrix33<T>&, int) {}
+template <class T> static void runStatic (const Matrix22<T>&, const Matrix22<T>&, const Matrix22<T>&, int) {}
+
+template <class T, int N> static void runMat (int mode, long round)
 {
     typedef typename Mat<T, N>::type M;
-    M a, b;
-    for (int i = 0; i < N; ++i) for (int j = 0; j < N; ++j) { a[i][j] = rnd<T> (mode); b[i][j] = rnd<T> (mode); }
-    if (N == 4 && mode == 2) { int k = 0; for (int i = 0; i < 4; ++i) if (a[i][3] == 0) k |= 1 << i; ++branchHits[k]; }
-    if (N == 4 && mode == 1 && rng () % 2) { a[0][3] = a[1][3] = a[2][3] = 0; a[3][3] = 1; ++branchHits[7]; } // affine pattern
-    M c = a * b;
-    std::string in = show<T, N> (a) + "| " + show<T, N> (b);
+    const Q     u  = unitRoundoff<T> ();
+    std::string L  = N == 2 ? "M22." : N == 3 ? "M33." : "M44.";
+    std::string ty = std::string (":") + TN<T>::n ();
+    M a = rndMat<T, N> (mode), b = rndMat<T, N> (mode);
+    if (N == 4)
+    {
+        // every zero pattern of the last column (Matrix44::determinant skips x[i][3] == 0): forced in the sparse class
+        if (mode == 2)
+        {
+            int k = (int) ((round / 4) % 16);
+            for (int i = 0; i < 4; ++i) a[i][3] = (k >> i & 1) ? (T) 0 : rndNonzero<T> (mode);
+        }
+        if (mode == 1 && rng () % 2) { a[0][3] = a[1][3] = a[2][3] = 0; a[3][3] = 1; ++affineHits[TN<T>::idx]; } // affine pattern
+        int k = 0;
+        for (int i = 0; i < 4; ++i) if (a[i][3] == 0) k |= 1 << i;
+        ++branchHits[TN<T>::idx][k];
+    }
+    auto inAB = [&] { return showM (a, N) + "| " + showM (b, N); };
+    auto inA  = [&] { return showM (a, N); };
+    // product, all spellings
+    M c = a * b, ca = a, cs = a;
+    ca *= b;
+    cs *= cs;
+    M csq = a * a;
     for (int i = 0; i < N; ++i) for (int j = 0; j < N; ++j)
     {
         Q s = 0, sa = 0;
         for (int k = 0; k < N; ++k) { Q t = (Q) a[i][k] * (Q) b[k][j]; s += t; sa += qabs (t); }
-        report<T> (N == 2 ? "M22.mul" : N == 3 ? "M33.mul" : "M44.mul", c[i][j], s, sa, N, mode, in);
+        check (L + "mul" + ty, N + 2, (Q) c[i][j], s, s, u * sa, tiny<T> (), mode, inAB);
+        same<T> (L + "mulAssign" + ty, "bitwise", ca[i][j], c[i][j], mode, inAB);
+        same<T> (L + "mulAssignSelf" + ty, "bitwise", cs[i][j], csq[i][j], mode, inA);
     }
-    Q d, sa;
-    detQ<T, N> (a, d, sa);
-    report<T> (N == 2 ? "M22.determinant" : N == 3 ? "M33.determinant" : "M44.determinant", a.determinant (), d, sa, 3 * N, mode, show<T, N> (a));
+    runStatic (a, b, c, mode);
+    // transposes: slot identity
+    M t1 = a.transposed (), t2 = a;
+    t2.transpose ();
+    for (int i = 0; i < N; ++i) for (int j = 0; j < N; ++j)
+    {
+        same<T> (L + "transposed" + ty, "exact", t1[i][j], a[j][i], mode, inA);
+        same<T> (L + "transpose" + ty, "exact", t2[i][j], a[j][i], mode, inA);
+    }
+    // trace
+    {
+        Q s = 0, sa = 0;
+        for (int i = 0; i < N; ++i) { s += (Q) a[i][i]; sa += qabs ((Q) a[i][i]); }
+        check (L + "trace" + ty, N + 2, (Q) a.trace (), s, s, u * sa, tiny<T> (), mode, inA);
+    }
+    // determinant
+    {
+        int id[4] = {0, 1, 2, 3};
+        Q   d, sa;
+        subDetQ (a, N, id, id, d, sa);
+        check (L + "determinant" + ty, 3 * N + 2, (Q) a.determinant (), d, d, u * sa, tiny<T> (), mode, inA);
+    }
+}
+// minorOf: every (r, c) against the Leibniz sum of the matrix with row r and column c removed
+template <class T> static void runMinors (int mode, long round)
+{
+    std::string ty = std::string (":") + TN<T>::n ();
+    const Q     u  = unitRoundoff<T> ();
+    Matrix33<T> a3 = rndMat<T, 3> (mode);
+    Matrix44<T> a4 = rndMat<T, 4> (mode);
+    for (int r = 0; r < 3; ++r) for (int c = 0; c < 3; ++c)
+    {
+        int rows[2], cols[2], n = 0, m = 0;
+        for (int i = 0; i < 3; ++i) { if (i != r) rows[n++] = i; if (i != c) cols[m++] = i; }
+        Q d, sa;
+        subDetQ (a3, 2, rows, cols, d, sa);
+        check ("M33.minorOf" + ty, 4, (Q) a3.minorOf (r, c), d, d, u * sa, tiny<T> (), mode, [&] {
+            char b[40]; snprintf (b, 40, "r=%d c=%d | ", r, c); return b + showM (a3, 3); });
+    }
+    for (int r = 0; r < 4; ++r) for (int c = 0; c < 4; ++c)
+    {
+        int rows[3], cols[3], n = 0, m = 0;
+        for (int i = 0; i < 4; ++i) { if (i != r) rows[n++] = i; if (i != c) cols[m++] = i; }
+        Q d, sa;
+        subDetQ (a4, 3, rows, cols, d, sa);
+        check ("M44.minorOf" + ty, 11, (Q) a4.minorOf (r, c), d, d, u * sa, tiny<T> (), mode, [&] {
+            char b[40]; snprintf (b, 40, "r=%d c=%d | ", r, c); return b + showM (a4, 4); });
+    }
+    runFastMinor (a3, mode, round);
+    runFastMinor (a4, mode, round);
+}
+
+// ---- vectors, quaternions, outer products
+template <class T, class V> static void dotRows (const char* L, int N, const V& a, const V& b, int mode)
+{
+    std::string ty = std::string (":") + TN<T>::n ();
+    const Q     u  = unitRoundoff<T> ();
+    auto in = [&] { return showV (a, N) + "| " + showV (b, N); };
+    Q s = 0, sa = 0, s2 = 0;
+    for (int i = 0; i < N; ++i) { Q t = (Q) a[i] * (Q) b[i]; s += t; sa += qabs (t); s2 += (Q) a[i] * (Q) a[i]; }
+    T d = a.dot (b);
+    check (std::string (L) + ".dot" + ty, N + 2, (Q) d, s, s, u * sa, tiny<T> (), mode, in);
+    same<T> (std::string (L) + ".dotOp" + ty, "bitwise", a ^ b, d, mode, in);
+    check (std::string (L) + ".length2" + ty, N + 2, (Q) a.length2 (), s2, s2, u * s2, tiny<T> (), mode, in);
 }
 template <class T> static void runVec (int mode)
 {
+    std::string ty = std::string (":") + TN<T>::n ();
+    const Q     u  = unitRoundoff<T> ();
+    Vec2<T> a2 (rnd<T> (mode), rnd<T> (mode)), b2 (rnd<T> (mode), rnd<T> (mode));
     Vec3<T> a (rnd<T> (mode), rnd<T> (mode), rnd<T> (mode)), b (rnd<T> (mode), rnd<T> (mode), rnd<T> (mode));
-    char buf[200]; snprintf (buf, 200, "%.9g %.9g %.9g | %.9g %.9g %.9g", (double) a.x, (double) a.y, (double) a.z, (double) b.x, (double) b.y, (double) b.z);
-    Q d = (Q) a.x * b.x + (Q) a.y * b.y + (Q) a.z * b.z, da = qabs ((Q) a.x * b.x) + qabs ((Q) a.y * b.y) + qabs ((Q) a.z * b.z);
-    report<T> ("V3.dot", a.dot (b), d, da, 3, mode, buf);
-    Vec3<T> c = a.cross (b);
-    report<T> ("V3.cross.x", c.x, (Q) a.y * b.z - (Q) a.z * b.y, qabs ((Q) a.y * b.z) + qabs ((Q) a.z * b.y), 2, mode, buf);
-    report<T> ("V3.cross.y", c.y, (Q) a.z * b.x - (Q) a.x * b.z, qabs ((Q) a.z * b.x) + qabs ((Q) a.x * b.z), 2, mode, buf);
-    report<T> ("V3.cross.z", c.z, (Q) a.x * b.y - (Q) a.y * b.x, qabs ((Q) a.x * b.y) + qabs ((Q) a.y * b.x), 2, mode, buf);
-    Matrix44<T> o = outerProduct (Vec4<T> (a.x, a.y, a.z, rnd<T> (mode)), Vec4<T> (b.x, b.y, b.z, rnd<T> (mode)));
-    (void) o;
-    Quat<T> p (rnd<T> (mode), a), q (rnd<T> (mode), b), r = p * q;
-    Q rr = (Q) p.r * q.r - d;
-    report<T> ("Quat.mul.r", r.r, rr, qabs ((Q) p.r * q.r) + da, 4, mode, buf);
+    Vec4<T> a4 (rnd<T> (mode), rnd<T> (mode), rnd<T> (mode), rnd<T> (mode)), b4 (rnd<T> (mode), rnd<T> (mode), rnd<T> (mode), rnd<T> (mode));
+    dotRows<T> ("V2", 2, a2, b2, mode);
+    dotRows<T> ("V3", 3, a, b, mode);
+    dotRows<T> ("V4", 4, a4, b4, mode);
+    auto in2 = [&] { return showV (a2, 2) + "| " + showV (b2, 2); };
+    auto in3 = [&] { return showV (a, 3) + "| " + showV (b, 3); };
+    // 2-D cross
+    {
+        Q p = (Q) a2.x * b2.y, q = (Q) a2.y * b2.x;
+        T c = a2.cross (b2);
+        check ("V2.cross" + ty, 4, (Q) c, p - q, p - q, u * (qabs (p) + qabs (q)), tiny<T> (), mode, in2);
+        same<T> ("V2.crossOp" + ty, "bitwise", a2 % b2, c, mode, in2);
+    }
+    // 3-D cross, three spellings + the aliased one
+    Q cx[3], cs[3];
+    for (int i = 0; i < 3; ++i)
+    {
+        int j = (i + 1) % 3, k = (i + 2) % 3;
+        Q p = (Q) a[j] * b[k], q = (Q) a[k] * b[j];
+        cx[i] = p - q; cs[i] = qabs (p) + qabs (q);
+    }
+    {
+        Vec3<T> c = a.cross (b), c2 = a % b, c3 = a, c4 = a, c5 = a % a;
+        c3 %= b;
+        c4 %= c4;
+        for (int i = 0; i < 3; ++i)
+        {
+            check ("V3.cross" + ty, 4, (Q) c[i], cx[i], cx[i], u * cs[i], tiny<T> (), mode, in3);
+            same<T> ("V3.crossOp" + ty, "bitwise", c2[i], c[i], mode, in3);
+            same<T> ("V3.crossAssign" + ty, "bitwise", c3[i], c[i], mode, in3);
+            same<T> ("V3.crossAssignSelf" + ty, "bitwise", c4[i], c5[i], mode, in3);
+        }
+    }
+    // outer products: a single rounding per entry, so the result is the correctly rounded exact product
+    {
+        Matrix33<T> o3 = outerProduct (a, b);
+        Matrix44<T> o4 = outerProduct (a4, b4);
+        for (int i = 0; i < 3; ++i) for (int j = 0; j < 3; ++j)
+            same<T> ("M33.outerProduct" + ty, "exact", o3[i][j], (T) ((Q) a[i] * (Q) b[j]), mode, in3);
+        for (int i = 0; i < 4; ++i) for (int j = 0; j < 4; ++j)
+            same<T> ("M44.outerProduct" + ty, "exact", o4[i][j], (T) ((Q) a4[i] * (Q) b4[j]), mode, [&] { return showV (a4, 4) + "| " + showV (b4, 4); });
+    }
+    // quaternion product: real part 4 products, each vector component 4 products
+    {
+        Quat<T> p (rnd<T> (mode), a), q (rnd<T> (mode), b), r = p * q, r2 = p, r3 = p, sq = p * p;
+        r2 *= q;
+        r3 *= r3;
+        auto inq = [&] { char bb[80]; snprintf (bb, 80, "%.17g %.17g | ", (double) p.r, (double) q.r); return bb + in3 (); };
+        Q d = 0, da = 0;
+        for (int i = 0; i < 3; ++i) { Q t = (Q) a[i] * (Q) b[i]; d += t; da += qabs (t); }
+        Q rr = (Q) p.r * q.r;
+        check ("Quat.mul.r" + ty, 6, (Q) r.r, rr - d, rr - d, u * (qabs (rr) + da), tiny<T> (), mode, inq);
+        check ("Quat.euclideanInnerProduct" + ty, 6, (Q) (p ^ q), rr + d, rr + d, u * (qabs (rr) + da), tiny<T> (), mode, inq);
+        same<T> ("Quat.mulAssign" + ty, "bitwise", r2.r, r.r, mode, inq);
+        same<T> ("Quat.mulAssignSelf" + ty, "bitwise", r3.r, sq.r, mode, inq);
+        for (int i = 0; i < 3; ++i)
+        {
+            Q t1 = (Q) p.r * (Q) b[i], t2 = (Q) q.r * (Q) a[i];
+            check ("Quat.mul.v" + ty, 6, (Q) r.v[i], t1 + t2 + cx[i], t1 + t2 + cx[i], u * (qabs (t1) + qabs (t2) + cs[i]), tiny<T> (), mode, inq);
+            same<T> ("Quat.mulAssign" + ty, "bitwise", r2.v[i], r.v[i], mode, inq);
+            same<T> ("Quat.mulAssignSelf" + ty, "bitwise", r3.v[i], sq.v[i], mode, inq);
+        }
+    }
 }
+
+// ---- vector x matrix, two-type templates: S = vector element, T = matrix element
+template <class S, class T> struct Types
+{
+    typedef decltype (S () * T ()) C; // the type the sums are computed in
+    static const bool narrowing = sizeof (S) < sizeof (C);
+    static std::string ty ()
+    {
+        return std::is_same<S, T>::value ? std::string (":") + TN<S>::n () : std::string (":") + TN<S>::n () + "*" + TN<T>::n ();
+    }
+};
+// plain sum of n products (+ optionally the constant row), computed at C and stored to S
+template <class S, class T, class F>
+static void sumRow (const std::string& name, int nterms, S got, Q X, Q SX, int mode, F&& in)
+{
+    typedef Types<S, T> Ty;
+    Q extra = tiny<S> () + (Ty::narrowing ? unitRoundoff<S> () * qabs (X) * (Q) 1.000001 : (Q) 0);
+    check (name, nterms + 2, (Q) got, X, X, unitRoundoff<typename Ty::C> () * SX, extra, mode, in);
+}
+// homogeneous divide: got = fl (fl (X) / fl (W))
+template <class S, class T, class F>
+static void divRow (const std::string& name, int nterms, S got, Q X, Q SX, Q W, Q SW, int mode, F&& in)
+{
+    typedef Types<S, T> Ty;
+    Fam& f = fam (name, "bound", (nterms + 2) * 4.0 / 3.0);
+    const Q uc = unitRoundoff<typename Ty::C> (), us = unitRoundoff<S> ();
+    if (W == 0) { ++wzero; ++f.skipped; return; }
+    if ((Q) (nterms + 2) * uc * SW * 4 > qabs (W)) { ++wcond; ++f.skipped; return; } // w itself has lost its leading digits
+    Q q = X / W;
+    Q unit  = uc * (SX + qabs (q) * SW) / qabs (W);
+    Q extra = tiny<S> () + (Ty::narrowing ? (Q) 3.01 : (Q) 1.01) * us * qabs (q);
+    check (name, (nterms + 2) * 4.0 / 3.0, (Q) got, q, (Q) (S) q, unit, extra, mode, in);
+}
+
+template <class S, class T> static void runVecMat (int mode)
+{
+    typedef Types<S, T>      Ty;
+    typedef typename Ty::C   C;
+    const std::string        ty = Ty::ty ();
+    const bool               mixed = !std::is_same<S, T>::value;
+    Vec2<S>     v2 (rnd<S> (mode), rnd<S> (mode));
+    Vec3<S>     v3 (rnd<S> (mode), rnd<S> (mode), rnd<S> (mode));
+    Vec4<S>     v4 (rnd<S> (mode), rnd<S> (mode), rnd<S> (mode), rnd<S> (mode));
+    Matrix22<T> m2 = rndMat<T, 2> (mode);
+    Matrix33<T> m3 = rndMat<T, 3> (mode);
+    Matrix44<T> m4 = rndMat<T, 4> (mode);
+    if (mode != 0 && mode != 2 && rng () % 4 == 0) { m4[0][3] = m4[1][3] = m4[2][3] = 0; m4[3][3] = 1; m3[0][2] = m3[1][2] = 0; m3[2][2] = 1; } // affine
+    auto in22 = [&] { return showV (v2, 2) + "| " + showM (m2, 2); };
+    auto in23 = [&] { return showV (v2, 2) + "| " + showM (m3, 3); };
+    auto in33 = [&] { return showV (v3, 3) + "| " + showM (m3, 3); };
+    auto in34 = [&] { return showV (v3, 3) + "| " + showM (m4, 4); };
+    auto in44 = [&] { return showV (v4, 4) + "| " + showM (m4, 4); };
+    // wide copies for the "computed at the wider type, rounded once" reference of the mixed instantiations
+    Matrix22<C> w2; Matrix33<C> w3; Matrix44<C> w4;
+    for (int i = 0; i < 2; ++i) for (int j = 0; j < 2; ++j) w2[i][j] = (C) m2[i][j];
+    for (int i = 0; i < 3; ++i) for (int j = 0; j < 3; ++j) w3[i][j] = (C) m3[i][j];
+    for (int i = 0; i < 4; ++i) for (int j = 0; j < 4; ++j) w4[i][j] = (C) m4[i][j];
+
+    // V2 x M22, V3 x M33, V4 x M44 (plain), operator and compound; M22::multDirMatrix is the same sum
+    {
+        Vec2<S> r = v2 * m2, ra = v2, rd;
+        ra *= m2;
+        m2.multDirMatrix (v2, rd);
+        Vec2<C> ref = Vec2<C> ((C) v2.x, (C) v2.y) * w2, refd;
+        w2.multDirMatrix (Vec2<C> ((C) v2.x, (C) v2.y), refd);
+        for (int j = 0; j < 2; ++j)
+        {
+            if (mixed) same<S> ("M22.multDirMatrix" + ty + ":vs-widened", "bitwise", rd[j], (S) refd[j], mode, in22);
+            Q X = 0, SX = 0;
+            for (int i = 0; i < 2; ++i) { Q t = (Q) v2[i] * (Q) m2[i][j]; X += t; SX += qabs (t); }
+            sumRow<S, T> ("V2.mulM22" + ty, 2, r[j], X, SX, mode, in22);
+            sumRow<S, T> ("M22.multDirMatrix" + ty, 2, rd[j], X, SX, mode, in22);
+            same<S> ("V2.mulAssignM22" + ty, "bitwise", ra[j], r[j], mode, in22);
+            if (mixed) same<S> ("V2.mulM22" + ty + ":vs-widened", "bitwise", r[j], (S) ref[j], mode, in22);
+        }
+    }
+    {
+        Vec3<S> r = v3 * m3, ra = v3;
+        ra *= m3;
+        Vec3<C> ref = Vec3<C> ((C) v3.x, (C) v3.y, (C) v3.z) * w3;
+        for (int j = 0; j < 3; ++j)
+        {
+            Q X = 0, SX = 0;
+            for (int i = 0; i < 3; ++i) { Q t = (Q) v3[i] * (Q) m3[i][j]; X += t; SX += qabs (t); }
+            sumRow<S, T> ("V3.mulM33" + ty, 3, r[j], X, SX, mode, in33);
+            same<S> ("V3.mulAssignM33" + ty, "bitwise", ra[j], r[j], mode, in33);
+            if (mixed) same<S> ("V3.mulM33" + ty + ":vs-widened", "bitwise", r[j], (S) ref[j], mode, in33);
+        }
+    }
+    {
+        Vec4<S> r = v4 * m4, ra = v4;
+        ra *= m4;
+        Vec4<C> ref = Vec4<C> ((C) v4.x, (C) v4.y, (C) v4.z, (C) v4.w) * w4;
+        for (int j = 0; j < 4; ++j)
+        {
+            Q X = 0, SX = 0;
+            for (int i = 0; i < 4; ++i) { Q t = (Q) v4[i] * (Q) m4[i][j]; X += t; SX += qabs (t); }
+            sumRow<S, T> ("V4.mulM44" + ty, 4, r[j], X, SX, mode, in44);
+            same<S> ("V4.mulAssignM44" + ty, "bitwise", ra[j], r[j], mode, in44);
+            if (mixed) same<S> ("V4.mulM44" + ty + ":vs-widened", "bitwise", r[j], (S) ref[j], mode, in44);
+        }
+    }
+    // V2 x M33: append 1, divide by the last homogeneous coordinate; multDirMatrix: append 0, no division
+    {
+        Q X[3], SX[3], D[2], SD[2];
+        for (int j = 0; j < 3; ++j)
+        {
+            X[j] = (Q) m3[2][j]; SX[j] = qabs (X[j]);
+            Q d = 0, sd = 0;
+            for (int i = 0; i < 2; ++i) { Q t = (Q) v2[i] * (Q) m3[i][j]; d += t; sd += qabs (t); }
+            X[j] += d; SX[j] += sd;
+            if (j < 2) { D[j] = d; SD[j] = sd; }
+        }
+        Vec2<S> rd;
+        m3.multDirMatrix (v2, rd);
+        Vec2<C> refd;
+        w3.multDirMatrix (Vec2<C> ((C) v2.x, (C) v2.y), refd);
+        for (int j = 0; j < 2; ++j)
+        {
+            sumRow<S, T> ("M33.multDirMatrix" + ty, 2, rd[j], D[j], SD[j], mode, in23);
+            if (mixed) same<S> ("M33.multDirMatrix" + ty + ":vs-widened", "bitwise", rd[j], (S) refd[j], mode, in23);
+        }
+        // the division is only performed when w != 0 (w == 0 is outside the clause: the result is inf/nan)
+        C wc = (C) v2.x * (C) m3[0][2] + (C) v2.y * (C) m3[1][2] + (C) m3[2][2];
+        if ((S) wc != 0)
+        {
+            Vec2<S> r = v2 * m3, ra = v2, rm;
+            ra *= m3;
+            m3.multVecMatrix (v2, rm);
+            Vec3<C> h = Vec3<C> ((C) v2.x, (C) v2.y, (C) 1) * w3; // same-type plain instantiation at the wide type
+            for (int j = 0; j < 2; ++j)
+            {
+                divRow<S, T> ("V2.mulM33" + ty, 3, r[j], X[j], SX[j], X[2], SX[2], mode, in23);
+                same<S> ("V2.mulAssignM33" + ty, "bitwise", ra[j], r[j], mode, in23);
+                same<S> ("M33.multVecMatrix" + ty, "bitwise", rm[j], r[j], mode, in23);
+                if (mixed) same<S> ("V2.mulM33" + ty + ":vs-widened", "bitwise", r[j], (S) ((S) h[j] / (S) h[2]), mode, in23);
+            }
+        }
+        else { ++wzero; }
+    }
+    // V3 x M44
+    {
+        Q X[4], SX[4], D[3], SD[3];
+        for (int j = 0; j < 4; ++j)
+        {
+            X[j] = (Q) m4[3][j]; SX[j] = qabs (X[j]);
+            Q d = 0, sd = 0;
+            for (int i = 0; i < 3; ++i) { Q t = (Q) v3[i] * (Q) m4[i][j]; d += t; sd += qabs (t); }
+            X[j] += d; SX[j] += sd;
+            if (j < 3) { D[j] = d; SD[j] = sd; }
+        }
+        Vec3<S> rd;
+        m4.multDirMatrix (v3, rd);
+        Vec3<C> refd;
+        w4.multDirMatrix (Vec3<C> ((C) v3.x, (C) v3.y, (C) v3.z), refd);
+        for (int j = 0; j < 3; ++j)
+        {
+            sumRow<S, T> ("M44.multDirMatrix" + ty, 3, rd[j], D[j], SD[j], mode, in34);
+            if (mixed) same<S> ("M44.multDirMatrix" + ty + ":vs-widened", "bitwise", rd[j], (S) refd[j], mode, in34);
+        }
+        C wc = (C) v3.x * (C) m4[0][3] + (C) v3.y * (C) m4[1][3] + (C) v3.z * (C) m4[2][3] + (C) m4[3][3];
+        if ((S) wc != 0)
+        {
+            Vec3<S> r = v3 * m4, ra = v3, rm;
+            ra *= m4;
+            m4.multVecMatrix (v3, rm);
+            Vec4<C> h = Vec4<C> ((C) v3.x, (C) v3.y, (C) v3.z, (C) 1) * w4;
+            for (int j = 0; j < 3; ++j)
+            {
+                divRow<S, T> ("V3.mulM44" + ty, 4, r[j], X[j], SX[j], X[3], SX[3], mode, in34);
+                same<S> ("V3.mulAssignM44" + ty, "bitwise", ra[j], r[j], mode, in34);
+                same<S> ("M44.multVecMatrix" + ty, "bitwise", rm[j], r[j], mode, in34);
+                if (mixed) same<S> ("V3.mulM44" + ty + ":vs-widened", "bitwise", r[j], (S) ((S) h[j] / (S) h[3]), mode, in34);
+            }
+        }
+        else { ++wzero; }
+    }
+}
+
 int main (int argc, char** argv)
 {
     rng.seed (argc > 1 ? strtoul (argv[1], 0, 10) : 1);
@@ -116,12 +564,28 @@ int main (int argc, char** argv)
     for (long i = 0; i < n; ++i)
     {
         int mode = (int) (i % 4);
-        runMat<float, 2> (mode); runMat<float, 3> (mode); runMat<float, 4> (mode);
-        runMat<double, 2> (mode); runMat<double, 3> (mode); runMat<double, 4> (mode);
+        runMat<float, 2> (mode, i); runMat<float, 3> (mode, i); runMat<float, 4> (mode, i);
+        runMat<double, 2> (mode, i); runMat<double, 3> (mode, i); runMat<double, 4> (mode, i);
+        runMinors<float> (mode, i); runMinors<double> (mode, i);
         runVec<float> (mode); runVec<double> (mode);
+        runVecMat<float, float> (mode); runVecMat<double, double> (mode);
+        runVecMat<float, double> (mode); runVecMat<double, float> (mode);
     }
-    printf ("RESIDUE evals=%ld lattice_exact=%ld failures=%d worst_err_over_u_sumabs=%.3f det44_zero_pattern_hits=", evals, lattice, failures, worst);
-    for (int k = 0; k < 16; ++k) printf ("%ld,", branchHits[k]);
+    double worst = 0;
+    for (auto& kv : fams) worst = std::max (worst, kv.second.worst);
+    long fm33 = 0, fm44 = 0;
+    for (char c : fm33seen) fm33 += c;
+    for (char c : fm44seen) fm44 += c;
+    for (auto& kv : fams)
+        printf ("FAMILY %s kind=%s c=%.6g evals=%ld lattice=%ld skipped=%ld fails=%ld worst_frac=%.6f\n", kv.first.c_str (), kv.second.kind.c_str (),
+                kv.second.c, kv.second.evals, kv.second.lattice, kv.second.skipped, kv.second.fails, kv.second.worst);
+    printf ("RESIDUE evals=%ld lattice_exact=%ld failures=%ld worst_frac=%.6f w_zero_skipped=%ld w_illconditioned_skipped=%ld fastminor33_tuples=%ld fastminor44_tuples=%ld affine_hits=%ld,%ld",
+            evals, lattice, failures, worst, wzero, wcond, fm33, fm44, affineHits[0], affineHits[1]);
+    for (int t = 0; t < 2; ++t)
+    {
+        printf (" det44_zero_pattern_hits_%s=", t ? "double" : "float");
+        for (int k = 0; k < 16; ++k) printf ("%ld,", branchHits[t][k]);
+    }
     printf ("\n");
     return failures ? 1 : 0;
 }
